@@ -7,7 +7,7 @@ Extraction "../ocaml/model.ml"
   accepts noncolliding shapes_for
   sound_cex sound_pure_cex exact_cex none_cex
   chain chain_sound_cex chain_exact_cex chain_none_cex
-  mask_exact_cex mask_none_cex mask_hide_cex partial_exact_cex incl_cex
+  mask_exact_cex mask_none_cex mask_hide_cex partial_exact_cex partial_none_cex incl_cex
   role_consistent all_aligned
   validate valid_sig sort_params apply_params flatten
   merge merge_nested embed mask sig_partial forwards.
